@@ -6,7 +6,7 @@ use tensor_store::{ScalarValue, TensorData, TensorStore, TensorValue};
 use crate::{
     chunker::{Chunk, Chunker, StreamingHasher},
     error::{BlobError, Result},
-    gc::increment_chunk_refs,
+    gc::{chunk_lock, increment_chunk_refs},
     metadata::PutOptions,
 };
 
@@ -100,6 +100,7 @@ impl BlobWriter {
 
     /// Store a chunk, handling deduplication.
     fn store_chunk(&mut self, chunk: Chunk) -> Result<()> {
+        let _guard = chunk_lock();
         let chunk_key = chunk.key();
 
         // Register the key first so the chunk is never visible without a referent
@@ -168,7 +169,14 @@ impl BlobWriter {
         );
 
         let meta_key = format!("_blob:meta:{}", self.state.artifact_id);
-        self.store.put(&meta_key, tensor)?;
+        {
+            // Publish the artifact and retire the in-flight record in one step
+            let _guard = chunk_lock();
+            self.store.put(&meta_key, tensor)?;
+            let _ = self
+                .store
+                .delete(&format!("{WRITER_PREFIX}{}", self.state.artifact_id));
+        }
 
         Self::write_secondary_indexes(
             &self.store,
@@ -178,7 +186,6 @@ impl BlobWriter {
             &tags_for_idx,
         )?;
 
-        // The in-flight record is removed when `self` is dropped, after the artifact record exists
         Ok(self.state.artifact_id.clone())
     }
 
@@ -224,7 +231,8 @@ impl BlobWriter {
 
 impl Drop for BlobWriter {
     fn drop(&mut self) {
-        // Finished or abandoned: either way this writer no longer holds its chunks
+        // Abandoned (after `finish` the record is already gone): the chunks are no longer held
+        let _guard = chunk_lock();
         let _ = self
             .store
             .delete(&format!("{WRITER_PREFIX}{}", self.state.artifact_id));
